@@ -136,8 +136,18 @@ let apply_lres tag (r : lres) =
   | LOther -> print_endline (tag ^ " OTHER")
   | LOOF -> print_endline (tag ^ " OOF")
 let find_rule c name = rget !reg_state (n_of_int c) name
+let r_cache : cstate Stdlib.ref = Stdlib.ref (fun _ -> cnew None None O)
+let run_r (p : res prog) : res =
+  let (r, st') = run_cached !reg_state.epoch !r_cache p in r_cache := st'; r
 
 let oracle = function 0 -> sh_id | 1 -> sh_rev | _ -> failwith "oracle"
+
+(* the engine is run through the cached program (EngineProg.run_cached) so that the model memoises exactly as the
+   library does (C08 proves the answers equal the pure engine's); one cache state per GRAMMAR command and oracle *)
+let g_state : cstate array = [| (fun _ -> cnew None None O); (fun _ -> cnew None None O) |]
+let reset_g_state () = g_state.(0) <- (fun _ -> cnew None None O); g_state.(1) <- (fun _ -> cnew None None O)
+let run_c o (p : res prog) : res =
+  let (r, st') = run_cached O g_state.(o) p in g_state.(o) <- st'; r
 
 (* ---- cache scripts (C16) ---- *)
 let keqb (a : int) (b : int) = a = b
@@ -186,30 +196,30 @@ let () =
          toks := Array.of_list ts; pos := 0;
          (match next () with
           | "FUEL" -> fuel := nat_of_int (next_int ())
-          | "GRAMMAR" -> g := read_grammar ()
+          | "GRAMMAR" -> g := read_grammar (); reset_g_state ()
           | "LPARSE" ->
             let o = next_int () in let r = next_int () in let i = next_int () in let s = read_str () in
-            print_endline (pr_res (lparse (oracle o) !g !fuel (ERef (n_of_int r)) s (nat_of_int i)))
+            print_endline (pr_res (run_c o (lparse_p (oracle o) !g !fuel (ERef (n_of_int r)) s (nat_of_int i))))
           | "LEXPR" ->
             let o = next_int () in let i = next_int () in let s = read_str () in let e = read_expr () in
-            print_endline (pr_res (lparse (oracle o) !g !fuel e s (nat_of_int i)))
+            print_endline (pr_res (run_c o (lparse_p (oracle o) !g !fuel e s (nat_of_int i))))
           | "PARSE" ->
             let o = next_int () in let r = next_int () in let i = next_int () in let s = read_str () in
-            print_endline (pr_res (parse (oracle o) !g !fuel (n_of_int r) s (nat_of_int i)))
+            print_endline (pr_res (run_c o (parse_p (oracle o) !g !fuel (n_of_int r) s (nat_of_int i))))
           | "PALL" ->
             let o = next_int () in let r = next_int () in let s = read_str () in
-            print_endline (pr_res (parse_all (oracle o) !g !fuel (n_of_int r) s))
+            print_endline (pr_res (run_c o (parse_all_p (oracle o) !g !fuel (n_of_int r) s)))
           | "CACHE" -> print_endline (run_cache ())
           | "CORECLS" ->
             List.iter (fun (nm, cls) ->
                 Printf.printf "%s %s\n" (str_to_string (s_of nm))
                   (String.concat "," (List.map (fun (a, b) -> Printf.sprintf "%d-%d" (int_of_n a) (int_of_n b)) cls))) b1_classes;
             print_endline "END"
-          | "RRFC" -> (match r_rfc () with Some r -> reg_state := r; print_endline "RRFC OK" | None -> print_endline "RRFC ERR")
-          | "RRFC5234" -> (match r_rfc5234 () with Some r -> reg_state := r; print_endline "RRFC5234 OK" | None -> print_endline "RRFC5234 ERR")
-          | "RALL" -> (match r_all () with Some r -> reg_state := r; print_endline "RALL OK" | None -> print_endline "RALL ERR")
+          | "RRFC" -> (match r_rfc () with Some r -> reg_state := r; r_cache := (fun _ -> cnew None None O); print_endline "RRFC OK" | None -> print_endline "RRFC ERR")
+          | "RRFC5234" -> (match r_rfc5234 () with Some r -> reg_state := r; r_cache := (fun _ -> cnew None None O); print_endline "RRFC5234 OK" | None -> print_endline "RRFC5234 ERR")
+          | "RALL" -> (match r_all () with Some r -> reg_state := r; r_cache := (fun _ -> cnew None None O); print_endline "RALL OK" | None -> print_endline "RALL ERR")
           | "RONLY" -> let m = read_str () in
-            (match r_only m with Some r -> reg_state := r; print_endline "RONLY OK" | None -> print_endline "RONLY ERR")
+            (match r_only m with Some r -> reg_state := r; r_cache := (fun _ -> cnew None None O); print_endline "RONLY OK" | None -> print_endline "RONLY ERR")
           | "RPARSEC" ->  (* RPARSEC kind module class name i s : rule of a bundled class *)
             let kind = next_int () in let m = read_str () in let cn = read_str () in let nm = read_str () in
             let i = next_int () in let s = read_str () in
@@ -221,11 +231,11 @@ let () =
                 | Some k ->
                   let gr = grammar_of !reg_state in
                   let r = n_of_int (int_of_nat k) in
-                  print_endline (pr_res (match kind with
-                      | 0 -> lparse sh_id gr !fuel (ERef r) s (nat_of_int i)
-                      | 1 -> parse sh_id gr !fuel r s (nat_of_int i)
-                      | _ -> parse_all sh_id gr !fuel r s))))
-          | "RRESET" -> reg_state := boot_reg ()
+                  print_endline (pr_res (run_r (match kind with
+                      | 0 -> lparse_p sh_id gr !fuel (ERef r) s (nat_of_int i)
+                      | 1 -> parse_p sh_id gr !fuel r s (nat_of_int i)
+                      | _ -> parse_all_p sh_id gr !fuel r s)))))
+          | "RRESET" -> reg_state := boot_reg (); r_cache := (fun _ -> cnew None None O)
           | "RCREATE" ->  (* RCREATE route cls text : route 0 = spec reader, 1 = library model (engine+visitor) *)
             let route = next_int () in let c = next_int () in let t = read_str () in
             if route = 0 then apply_opt "RCREATE" (create (n_of_int c) t !reg_state)
@@ -258,10 +268,10 @@ let () =
              | Some k ->
                let gr = grammar_of !reg_state in
                let r = n_of_int (int_of_nat k) in
-               print_endline (pr_res (match kind with
-                   | 0 -> lparse sh_id gr !fuel (ERef r) s (nat_of_int i)
-                   | 1 -> parse sh_id gr !fuel r s (nat_of_int i)
-                   | _ -> parse_all sh_id gr !fuel r s)))
+               print_endline (pr_res (run_r (match kind with
+                   | 0 -> lparse_p sh_id gr !fuel (ERef r) s (nat_of_int i)
+                   | 1 -> parse_p sh_id gr !fuel r s (nat_of_int i)
+                   | _ -> parse_all_p sh_id gr !fuel r s))))
           | "HNEW" ->   (* HNEW dflt : all caches fresh with class default limit dflt *)
             let d = read_optnat () in
             hist_epoch := 0; hist_state := (fun _ -> cnew d None O)
